@@ -28,6 +28,12 @@ type escaperEval struct {
 	r     rune
 	sinks []escSink
 	bools map[types.Object]bool // assumed values of boolean parameters (the context flag of an escaper)
+	pkg   *packages.Package
+	// the loop variable may be overwritten before it is written (r = '\uFFFD'): replaced says that on the evaluated
+	// path it certainly was (r holds the new value), alts are values it may have under conditions that stayed unknown
+	replaced  bool
+	alts      []int64 // -1: a value that is no constant
+	uncertain int
 }
 
 // tri evaluates a condition for the concrete rune: 1 true, 0 false, -1 unknown.
@@ -46,6 +52,20 @@ func (e *escaperEval) tri(x ast.Expr) int {
 				return 1
 			}
 			return 0
+		}
+	case *ast.CallExpr:
+		// a predicate over the rune (unicode.IsControl(r), isXMLChar(r)): evaluated as a set of code points
+		if e.pkg != nil && !e.replaced && len(e.alts) == 0 {
+			p := &runePred{c: e.c, pkg: e.pkg, v: e.rvar}
+			set := p.eval(t)
+			if p.fail == "" {
+				for _, iv := range set {
+					if iv.lo <= e.r && e.r <= iv.hi {
+						return 1
+					}
+				}
+				return 0
+			}
 		}
 	case *ast.UnaryExpr:
 		if t.Op == token.NOT {
@@ -127,7 +147,28 @@ func (e *escaperEval) run(stmts []ast.Stmt) {
 			for _, r := range t.Rhs {
 				e.sink(r)
 			}
+			// the rune itself is overwritten: what is written afterwards is no longer the rune of the string
+			for i, l := range t.Lhs {
+				if id, ok := ast.Unparen(l).(*ast.Ident); ok && e.info.ObjectOf(id) == e.rvar && e.rvar != nil {
+					nv := int64(-1)
+					if t.Tok == token.ASSIGN && len(t.Rhs) == len(t.Lhs) {
+						if tv := e.info.Types[t.Rhs[i]]; tv.Value != nil {
+							if v, ok := constant.Int64Val(constant.ToInt(tv.Value)); ok {
+								nv = v
+							}
+						}
+					}
+					if e.uncertain == 0 && nv >= 0 {
+						e.r, e.replaced = rune(nv), true
+					} else {
+						e.alts = append(e.alts, nv)
+					}
+				}
+			}
 		case *ast.IfStmt:
+			if t.Init != nil {
+				e.runStmt(t.Init)
+			}
 			switch e.tri(t.Cond) {
 			case 1:
 				e.run(t.Body.List)
@@ -136,10 +177,12 @@ func (e *escaperEval) run(stmts []ast.Stmt) {
 					e.runStmt(t.Else)
 				}
 			default:
+				e.uncertain++
 				e.run(t.Body.List)
 				if t.Else != nil {
 					e.runStmt(t.Else)
 				}
+				e.uncertain--
 			}
 		case *ast.SwitchStmt:
 			e.runSwitch(t)
@@ -184,7 +227,9 @@ func (e *escaperEval) runSwitch(sw *ast.SwitchStmt) {
 				break
 			}
 			if res == -1 {
+				e.uncertain++
 				e.run(cc.Body)
+				e.uncertain--
 			}
 		}
 		if matched {
@@ -210,7 +255,18 @@ func (e *escaperEval) sink(x ast.Expr) {
 	case "WriteRune", "WriteByte":
 		if len(call.Args) == 1 {
 			if id, ok := ast.Unparen(call.Args[0]).(*ast.Ident); ok && e.info.ObjectOf(id) == e.rvar {
-				e.sinks = append(e.sinks, escSink{"raw", "", call.Pos()})
+				if e.replaced {
+					e.sinks = append(e.sinks, escSink{"const", string(e.r), call.Pos()})
+				} else {
+					e.sinks = append(e.sinks, escSink{"raw", "", call.Pos()})
+				}
+				for _, a := range e.alts {
+					if a >= 0 {
+						e.sinks = append(e.sinks, escSink{"const", string(rune(a)), call.Pos()})
+					} else {
+						e.sinks = append(e.sinks, escSink{"const", "a computed value", call.Pos()})
+					}
+				}
 				return
 			}
 			if tv := e.info.Types[call.Args[0]]; tv.Value != nil {
@@ -269,7 +325,7 @@ func (c *Ctx) escaperSinksCtx(pkg *packages.Package, fd *ast.FuncDecl, r rune, b
 	if !ok {
 		return nil, false
 	}
-	ev := &escaperEval{c: c, info: info, rvar: info.Defs[v], r: r, bools: bools}
+	ev := &escaperEval{c: c, info: info, rvar: info.Defs[v], r: r, bools: bools, pkg: pkg}
 	ev.run(loop.Body.List)
 	return ev.sinks, true
 }
